@@ -46,6 +46,16 @@ def scenario(rng):
     if rng.random() < 0.5:
         libs.append("(define-library (lib plain) (import (scheme base)) (export k (rename inner outer)) (begin (define k %d) (define (inner x) (list x k))))" % rng.randint(10, 99))
         have["plain"] = ["k", "outer"]
+    if rng.random() < 0.6:
+        # renaming exports whose external names collide with internal names of other exported bindings (chains and swaps)
+        k = rng.random()
+        if k < 0.5:
+            libs.append("(define-library (lib ren) (import (scheme base)) (export (rename low high) (rename high top) get-low) (begin (define low %d) (define high %d) (define (get-low) (list low high))))"
+                        % (rng.randint(1, 9), rng.randint(10, 19)))
+            have["ren"] = ["high", "top", "get-low"]
+        else:
+            libs.append("(define-library (lib ren) (import (scheme base)) (export (rename ra rb) (rename rb ra) (rename rc rd) rboth) (begin (define ra 'was-a) (define rb 'was-b) (define rc 'was-c) (define (rboth) (list ra rb rc))))")
+            have["ren"] = ["ra", "rb", "rd", "rboth"]
     # the program's imports
     imports = ["(scheme base)"]
     avail = {}
@@ -81,7 +91,7 @@ def scenario(rng):
         c = rng.random()
         if c < 0.4:
             calls = []
-            for base, args in (("next!", ""), ("use1!", ""), ("use2!", ""), (pk, ""), ("double", " 3"), ("outer", " 7"), ("get-plus", " 20 5")):
+            for base, args in (("next!", ""), ("use1!", ""), ("use2!", ""), (pk, ""), ("double", " 3"), ("outer", " 7"), ("get-plus", " 20 5"), ("get-low", ""), ("rboth", "")):
                 if base in avail:
                     calls.append("(%s%s)" % (avail[base], args))
             if calls:
@@ -103,6 +113,9 @@ def scenario(rng):
         elif c < 0.92 and "leak" in avail:
             forms.append("(%s)" % avail["leak"])
         else:
+            for nm in ("high", "top", "ra", "rb", "rd", "k"):
+                if nm in avail and rng.random() < 0.5:
+                    forms.append(avail[nm])
             forms.append(rng.choice(["(+ 2 3)", "(car '(1 2))", "(* 2 3)", "(list %s)" % " ".join(sorted(set(avail.values()))[:0] or ["1"])]))
     return libs, forms
 
